@@ -315,6 +315,11 @@ class Inventory:
                         if val is True and isinstance(a, tuple) and a[0] == "call" and a[1] in ("layout_parsing_formatting::has_exactly_keys", "layout_parsing_formatting::has_at_least_keys") and a[2][0] == mp:
                             if ks in self._keylist(b, a):
                                 return "D1:get(K).unwrap()-under-has_*_keys(map,[..K..])"
+            # serde_json::to_value(<string literal>).unwrap(): serialising a &str cannot fail
+            if isinstance(arg, tuple) and arg[0] == "call" and arg[1].startswith("serde_json::to_value") and len(arg[2]) == 1:
+                a0 = arg[2][0]
+                if isinstance(a0, tuple) and a0[0] == "const" and isinstance(a0[1], tuple) and a0[1][0] == "str":
+                    return "D8:serde_json::to_value-of-a-string-literal-cannot-fail"
             # last().unwrap() / first().unwrap() under a non-empty test
             if isinstance(arg, tuple) and arg[0] == "call" and method_name(arg[1]) in ("last", "first", "pop") and arg[2]:
                 v = mir.strip(arg[2][0])
